@@ -3,6 +3,9 @@ package statictypes
 import (
 	"time"
 
+	dupa "verifharness/statictypes/dupa/shared"
+	dupb "verifharness/statictypes/dupb/shared"
+
 	"github.com/unravelin/null/v5"
 )
 
@@ -148,6 +151,18 @@ type HReused struct {
 	C []HInner
 }
 
+// distinct types from two packages that are both called "shared": equal String(), different full names
+type HDup1 struct {
+	A dupa.Item
+	B dupb.Item
+}
+
+type HDup2 struct {
+	B  dupb.Box   `json:"b"`
+	A  dupa.Box   `json:"a"`
+	PA *dupa.Leaf `json:"pa"`
+}
+
 type HMapOfMap struct {
 	MM  map[string]map[string]int
 	MS  map[string][]int
@@ -219,6 +234,8 @@ func init() {
 	reg[HOnlyExcluded]()
 	reg[HAllOmit]()
 	reg[HReused]("c15.named-struct-reused")
+	reg[HDup1]()
+	reg[HDup2]()
 	reg[HMapOfMap]()
 	reg[HDeep]()
 	reg[HBytes]()
